@@ -2,6 +2,7 @@
 package codex
 
 import (
+	"bytes"
 	"encoding/binary"
 	"errors"
 	"fmt"
@@ -293,23 +294,46 @@ func (m *execInitMsg) ToBytes() []byte {
 
 // GetCmd reads execInitMsg from an EXEC_CHANNEL and returns the cmd to run
 func GetCmd(c net.Conn) (string, string, bool, *pty.Winsize, error) {
-	//TODO (drebelsky): consider handling io errors
 	t := make([]byte, 1)
-	io.ReadFull(c, t)
+	if _, err := io.ReadFull(c, t); err != nil {
+		return "", "", false, nil, err
+	}
 	usePty := (t[0] & usePtyFlag) != 0
 	hasSize := (t[0] & hasSizeFlag) != 0
-	l := make([]byte, 4)
-	io.ReadFull(c, l)
-	buf := make([]byte, binary.BigEndian.Uint32(l))
-	io.ReadFull(c, buf)
-	io.ReadFull(c, l)
-	term := make([]byte, binary.BigEndian.Uint32(l))
-	io.ReadFull(c, term)
+	buf, err := readLengthPrefixed(c)
+	if err != nil {
+		return "", "", false, nil, err
+	}
+	term, err := readLengthPrefixed(c)
+	if err != nil {
+		return "", "", false, nil, err
+	}
 	var size *pty.Winsize
 	if hasSize {
-		size, _ = readSize(c)
+		size, err = readSize(c)
+		if err != nil {
+			return "", "", false, nil, err
+		}
 	}
 	return string(buf), string(term), usePty, size, nil
+}
+
+// readLengthPrefixed reads a 32-bit length and that many bytes. The buffer
+// grows as data arrives, so a peer cannot make the reader allocate more than
+// it actually sends.
+func readLengthPrefixed(r io.Reader) ([]byte, error) {
+	l := make([]byte, 4)
+	if _, err := io.ReadFull(r, l); err != nil {
+		return nil, err
+	}
+	var b bytes.Buffer
+	if _, err := io.CopyN(&b, r, int64(binary.BigEndian.Uint32(l))); err != nil {
+		if err == io.EOF {
+			err = io.ErrUnexpectedEOF
+		}
+		return nil, err
+	}
+	return b.Bytes(), nil
 }
 
 func readSize(r io.Reader) (*pty.Winsize, error) {
